@@ -104,7 +104,7 @@ theorem mem_product_lang (G : TT S Unit) (k : Nat)
     constructor
     · rintro ⟨x, r, he, hx, hr⟩
       cases he
-      have h1 := (ih x (ty, (s, ()))).mp hx
+      have h1 := (ih _ (ty, (s, ()))).mp hx
       have h3 := h2.mp hr
       exact ⟨⟨h1.1, h3.1⟩, Nat.max_le.mpr ⟨h1.2, h3.2⟩⟩
     · rintro ⟨⟨g1, g2⟩, hd⟩
@@ -132,7 +132,7 @@ theorem mem_lang_iff (G : TT S Unit) (h : RowsNodup G) (k : Nat) (t : Prog) (nt 
         · rintro ⟨r, hr, kids', hk, he⟩
           obtain ⟨sym, args, u⟩ := r
           cases he
-          have hlk : AList.lookup f rs = some (args, u) :=
+          have hlk : AList.lookup _ rs = some (args, u) :=
             AList.lookup_of_mem_nodup (h nt rs hl) hr
           rw [hlk]
           have := (aux kids args).mp hk
@@ -150,4 +150,66 @@ theorem mem_lang_iff (G : TT S Unit) (h : RowsNodup G) (k : Nat) (t : Prog) (nt 
 theorem gen_of_mem_lang (G : TT S Unit) (h : RowsNodup G) (k : Nat) (t : Prog) (nt : NT S Unit)
     (hm : t ∈ lang G k nt) : gen G t nt = true :=
   ((mem_lang_iff G h k t nt).mp hm).1
+
+/-! ### no repetition -/
+
+theorem nodup_map_of_inj {α β : Type} (f : α → β) (hf : ∀ a b, f a = f b → a = b)
+    {l : List α} (h : l.Nodup) : (l.map f).Nodup := by
+  rw [List.nodup_iff_pairwise_ne] at h ⊢
+  rw [List.pairwise_map]
+  exact h.imp (fun hne he => hne (hf _ _ he))
+
+theorem product_nodup {α : Type} (ls : List (List α)) (h : ∀ l ∈ ls, l.Nodup) :
+    (product ls).Nodup := by
+  induction ls with
+  | nil => simp [product]
+  | cons l ls ih =>
+    have hl : l.Nodup := h l (by simp)
+    have hr : (product ls).Nodup := ih (fun l' hl' => h l' (by simp [hl']))
+    simp only [product]
+    rw [List.nodup_iff_pairwise_ne, List.pairwise_flatMap]
+    constructor
+    · intro x _
+      rw [← List.nodup_iff_pairwise_ne]
+      exact nodup_map_of_inj _ (fun a b he => (List.cons.inj he).2) hr
+    · rw [List.nodup_iff_pairwise_ne] at hl
+      refine hl.imp ?_
+      intro a b hne x hx y hy he
+      simp only [List.mem_map] at hx hy
+      obtain ⟨r1, _, rfl⟩ := hx
+      obtain ⟨r2, _, rfl⟩ := hy
+      exact hne (List.cons.inj he).1
+
+/-- … without repetition -/
+theorem lang_nodup (G : TT S Unit) (h : RowsNodup G) (k : Nat) (nt : NT S Unit) :
+    (lang G k nt).Nodup := by
+  induction k generalizing nt with
+  | zero => simp [lang]
+  | succ k ih =>
+    simp only [lang]
+    cases hl : AList.lookup nt G.rules with
+    | none => simp
+    | some rs =>
+      simp only
+      rw [List.nodup_iff_pairwise_ne, List.pairwise_flatMap]
+      constructor
+      · intro r _
+        rw [← List.nodup_iff_pairwise_ne]
+        apply nodup_map_of_inj
+        · intro a b he; exact (Tree.node.inj he).2
+        · apply product_nodup
+          intro l hl'
+          simp only [List.mem_map] at hl'
+          obtain ⟨a, _, rfl⟩ := hl'
+          exact ih _
+      · have hk := h nt rs hl
+        unfold AList.keys at hk
+        rw [List.nodup_iff_pairwise_ne, List.pairwise_map] at hk
+        refine hk.imp ?_
+        intro a b hne x hx y hy he
+        simp only [List.mem_map] at hx hy
+        obtain ⟨r1, _, rfl⟩ := hx
+        obtain ⟨r2, _, rfl⟩ := hy
+        exact hne (Tree.node.inj he).1
+
 end PS.G
